@@ -77,6 +77,10 @@ typedef std::function<bool(const unsigned char* body_start,
 			   const unsigned char* body_end,
 			   const std::vector<std::string>& args_tail)> file_body_logic;
 
+// True if PATH is one of the image files given with --file.  Commands
+// which create host files use this to avoid writing over an image.
+bool is_image_file(const DFSContext& ctx, const std::string& path);
+
 bool body_command(const StorageConfiguration& config, const DFSContext& ctx,
 		  const std::vector<std::string>& args,
 		  file_body_logic logic);
